@@ -6,7 +6,8 @@ import PPModel
 open PP
 
 def handlers : List (List Sexp → Option Sexp) :=
-  [ Driver.lineColHandle ]
+  [ Driver.lineColHandle
+  , Driver.wordPathsHandle ]
 
 def dispatch (line : String) : String :=
   match Sexp.parseAll line with
